@@ -294,6 +294,46 @@ fn seed_grid() -> Vec<(E, Vec<(String, V)>)> {
         out.push((E::Tern(Box::new(bin(Op::Gt, bin(Op::Div, x(), ilit(0)), ilit(0))), Box::new(slit("a")), Box::new(slit("b"))), b.clone()));
         out.push((E::Tern(Box::new(E::Index(Box::new(E::List(vec![])), Box::new(x()))), Box::new(slit("a")), Box::new(slit("b"))), b.clone()));
     }
+    // macros over a constant receiver whose body calls a built-in on the variable, the call sitting
+    // inside something that would absorb a failing argument (container, coalesce, ||, ?:)
+    for v in [V::Int(7), V::s("ab"), V::List(vec![V::Int(1), V::Int(2)])] {
+        let b = vec![("x".to_string(), v)];
+        let calls: Vec<E> = vec![
+            call("int", vec![x()]),
+            call("string", vec![x()]),
+            call("size", vec![x()]),
+            call("type", vec![x()]),
+            call("dyn", vec![x()]),
+            method(x(), "size", vec![]),
+            call("max", vec![x(), x()]),
+        ];
+        for c in &calls {
+            let wraps: Vec<E> = vec![
+                c.clone(),
+                E::List(vec![c.clone()]),
+                E::Map(vec![(slit("n"), var("v")), (slit("c"), c.clone())]),
+                call("coalesce", vec![c.clone(), ilit(0)]),
+                E::Tern(Box::new(E::Lit(V::Bool(true))), Box::new(E::List(vec![c.clone()])), Box::new(E::List(vec![]))),
+                bin(Op::Or, bin(Op::Eq, c.clone(), c.clone()), E::Lit(V::Bool(true))),
+                E::FStr(vec![FSeg::Lit("c=".into()), FSeg::Expr(c.clone())]),
+            ];
+            let recv = || E::List(vec![ilit(0), ilit(1)]);
+            for w in &wraps {
+                out.push((method(recv(), "map", vec![var("v"), w.clone()]), b.clone()));
+                out.push((method(recv(), "map", vec![var("v"), E::Lit(V::Bool(true)), w.clone()]), b.clone()));
+                out.push((method(recv(), "filter", vec![var("v"), E::List(vec![w.clone()])]), b.clone()));
+                out.push((method(recv(), "all", vec![var("v"), E::List(vec![w.clone()])]), b.clone()));
+                out.push((method(recv(), "exists", vec![var("v"), E::List(vec![w.clone()])]), b.clone()));
+                out.push((method(recv(), "exists_one", vec![var("v"), E::List(vec![w.clone()])]), b.clone()));
+                out.push((method(recv(), "reduce", vec![var("acc"), var("v"), bin(Op::Add, var("acc"), E::List(vec![w.clone()])), E::List(vec![])]), b.clone()));
+                out.push((method(recv(), "reduce", vec![var("acc"), var("v"), var("acc"), E::List(vec![w.clone()])]), b.clone()));
+                out.push((method(E::Map(vec![(slit("k"), ilit(1))]), "map", vec![var("v"), w.clone()]), b.clone()));
+                out.push((method(E::Map(vec![(slit("k"), ilit(1))]), "filter", vec![var("v"), E::List(vec![w.clone()])]), b.clone()));
+                // nested: the inner macro's receiver is constant too
+                out.push((method(recv(), "map", vec![var("v"), method(E::List(vec![ilit(5)]), "map", vec![var("u"), w.clone()])]), b.clone()));
+            }
+        }
+    }
     // variables that stay unbound in every form, next to a substitutable one
     for v in [V::Int(1), V::Bool(true), V::Bool(false), V::s("a")] {
         let b = vec![("x".to_string(), v)];
